@@ -395,6 +395,7 @@ def source_key(case):
 # cache of real runs (shared by the Snowing properties within one source state)
 # ---------------------------------------------------------------------------
 CACHE_DIR = core.VERIF / ".cache"
+CACHE_MAX_FILES = 600  # about 0.6 GB at the observed average size
 
 
 def run_real_cached(case):
@@ -416,6 +417,10 @@ def run_real_cached(case):
     obs = run_real(case)
     try:
         CACHE_DIR.mkdir(parents=True, exist_ok=True)
+        # bounded also within one source state: beyond CACHE_MAX_FILES observations nothing more is stored
+        # (thorough tiers over many seeds would otherwise accumulate several GB)
+        if sum(1 for _ in os.scandir(CACHE_DIR)) > CACHE_MAX_FILES:
+            return obs
         tmp = CACHE_DIR / (key + ".tmp%d" % os.getpid())
         with gzip.open(tmp, "wt", compresslevel=1) as f:
             json.dump(obs, f)
